@@ -128,7 +128,7 @@ func (mt *matcher) rec(st *MState, mi, oi, ei int) bool {
 		nei := ei
 		evok := true
 		for _, want := range b.Ev {
-			if nei >= len(mt.ev) || mt.ev[nei] != want {
+			if nei >= len(mt.ev) || !eventMatches(want, mt.ev[nei]) {
 				got := "<none>"
 				if nei < len(mt.ev) {
 					got = mt.ev[nei]
@@ -177,6 +177,16 @@ func (mt *matcher) rec(st *MState, mi, oi, ei int) bool {
 		copy(mt.outIdx[mi:], save)
 	}
 	return false
+}
+
+// eventMatches compares an expected callback event with an observed one; an
+// expectation ending in " *" fixes only the prefix (the return value of that
+// call is not fixed by the property).
+func eventMatches(want, got string) bool {
+	if strings.HasSuffix(want, " *") {
+		return strings.HasPrefix(got, want[:len(want)-1])
+	}
+	return want == got
 }
 
 // eventClass reduces a callback event to its kind ("parse", "op row", ...) for
